@@ -168,6 +168,35 @@ fn run_job_w<const B: u32>(job: &Job, specs: &[Spec], cfg: &JobCfg) -> JobOut {
     // compile every subject once (totality: a panic here is a finding)
     let mut execs: Vec<Option<Box<dyn Executable<SymCell<B>> + '_>>> = Vec::new();
     let mut jits: Vec<Option<crate::x86env::JitProg>> = Vec::new();
+    // Compile-time canary: the optimiser at the highest level of this job, on SymCell constants, under a time cap
+    // (the engine can abort SymCell arithmetic; it cannot abort the native compilations below, so a program
+    // whose compilation does not finish is stopped here and never reaches them).
+    let compile_cap = std::time::Duration::from_secs(if cfg.limits.max_paths > 512 { 30 } else { 10 });
+    let max_level = specs.iter().filter(|s| s.backend != Backend::Inplace).map(|s| s.level).max();
+    let mut compile_timeout = false;
+    if let Some(l) = max_level {
+        engine::with(|c| c.compile_deadline = Some(Instant::now() + compile_cap));
+        let r = catch_unwind(AssertUnwindSafe(|| subject::build::<SymCell<B>>(Backend::Bc, &job.code, l).is_ok()));
+        engine::with(|c| c.compile_deadline = None);
+        if let Err(payload) = r {
+            if let Ok(a) = payload.downcast::<Abort>() {
+                if format!("{:?}", a).contains("compilation exceeded") {
+                    compile_timeout = true;
+                }
+            }
+        }
+    }
+    if compile_timeout {
+        let spec = specs.iter().find(|s| s.backend != Backend::Inplace && Some(s.level) == max_level).unwrap();
+        let note = format!("compile-timeout: building the executor for this {}-character program did not finish within {} s", job.code.len(), compile_cap.as_secs());
+        if cfg.property == "C13" {
+            out.candidates.push(mk_case(cfg, job, spec, &product::ConcreteEnv::default(), note));
+        } else {
+            out.inconclusive.push(format!("{}: {}", spec.label(), note));
+        }
+        out.path_truncated += 1;
+        return out;
+    }
     for spec in specs {
         if spec.backend == Backend::Jit {
             // the real JIT compiles natively (real cell type); its machine code runs in the x86 model
